@@ -495,6 +495,14 @@ def run(tier, seed, jobs):
     drained2 = (("b2", 1, 0, 0), ("t", 2 * MTW + 0.1), ("b2", 1, 0, 0), ("t", 2 * MTW + 0.1))
     work.append(("b1", drained1, 20, 2))
     work.append(("b2", drained2, 64, 2))
+    # state of an unfinished transfer that has just survived a sweep is replaced by a new block 0 shortly before the next sweep; the
+    # new transfer carries on after that sweep: replacing an entry is a use of it
+    # (the second use right at the start is what carries the first entry over its first sweep)
+    over1 = (("b1", 1, 0, 1, 0, 16, "a", None, "PUT"), ("b1", 1, 1, 1, 0, 16, "a", None, "PUT"), ("t", MTW - 0.1), ("t", MTW - 0.1),
+             ("b1", 1, 0, 1, 0, 16, "a", None, "PUT"), ("t", MTW - 0.1))
+    over2 = (("b2", 1, 0, 0), ("b2", 1, 1, 0), ("t", MTW - 0.1), ("t", MTW - 0.1), ("b2", 1, 0, 0), ("t", MTW - 0.1))
+    work.append(("b1", over1, 20, 2))
+    work.append(("b2", over2, 64, 2))
     work.append(("combined", None, 0, 0))
     return core.prun(job, work, jobs)
 
